@@ -97,7 +97,13 @@ func (svr *Server) handshakeDataChannel(wsc websocket.Conn) {
 	si, ok := svr.sessions.Load(channelID)
 	if ok {
 		session = si.(*Session)
-	} else {
+		// 通道号是顺序号，可被猜到：数据通道必须与控制通道的访问路径和用户一致，
+		// 否则凭其他路径的权限接入的连接可以接走别人通道上的媒体数据
+		if cc := session.conn; cc == nil || cc.Path() != wsc.Path() || cc.Username() != wsc.Username() {
+			session, ok = nil, false
+		}
+	}
+	if !ok {
 		code = 404
 		text = "NOT FOUND"
 	}
